@@ -22,6 +22,9 @@ type c19Case struct {
 	Target string   `json:"target"`
 	Delim  string   `json:"delim"`
 	CLI    bool     `json:"cli"`
+	// Reuse: additionally compile into an -out directory that already holds the output of a
+	// larger revision of the same program (every file has extra declarations)
+	Reuse bool `json:"reuse,omitempty"`
 }
 
 func genC19(c *Cfg) func(t *rapid.T) c19Case {
@@ -31,7 +34,8 @@ func genC19(c *Cfg) func(t *rapid.T) c19Case {
 		return c19Case{P: pc.P, Lex: pc.Lex,
 			Target: rapid.SampledFrom(genTargets).Draw(t, "target"),
 			Delim:  rapid.SampledFrom([]string{".", ".", "/", "-"}).Draw(t, "delim"),
-			CLI:    rapid.IntRange(0, 3).Draw(t, "cli") == 0}
+			CLI:    rapid.IntRange(0, 3).Draw(t, "cli") == 0,
+			Reuse:  rapid.IntRange(0, 2).Draw(t, "reuse") == 0}
 	}
 }
 
@@ -40,6 +44,9 @@ func classifyC19(c c19Case) ev.Class {
 	labels = append(labels, "target="+c.Target)
 	if c.CLI {
 		labels = append(labels, "cli-placements")
+	}
+	if c.Reuse {
+		labels = append(labels, "reused-out-directory")
 	}
 	incl := 0
 	for _, f := range c.P.Files {
@@ -54,7 +61,7 @@ func classifyC19(c c19Case) ev.Class {
 	for _, k := range sortedKeys(texts) {
 		all = append(all, k, texts[k])
 	}
-	return ev.Class{NonTrivial: nt, Key: strings.Join(all, "\x00") + "|" + c.Target + "|" + c.Delim + fmt.Sprint(c.CLI), Labels: uniq(labels)}
+	return ev.Class{NonTrivial: nt, Key: strings.Join(all, "\x00") + "|" + c.Target + "|" + c.Delim + fmt.Sprint(c.CLI, c.Reuse), Labels: uniq(labels)}
 }
 
 func digestDir(dir string) (map[string]string, error) {
@@ -195,8 +202,42 @@ func checkC19Inner(c c19Case) *ev.Failure {
 			runs = append(runs, run{fmt.Sprintf("CLI from cwd %d with relative paths", i), out, d})
 		}
 	}
+	if c.Reuse {
+		// an -out directory that already holds the output of a larger revision: every file the
+		// compiler writes for this program must come out exactly as in a fresh directory
+		// (files only the larger revision produced may remain)
+		big := cloneProgram(c.P)
+		for i, f := range big.Files {
+			f.Decls = append(f.Decls,
+				&Decl{Kind: "struct", Name: fmt.Sprintf("ZzStaleRecord%d", i), Fields: []Field{{ID: 1, Name: "staleField", Type: &Type{Kind: "base", Name: "string"}}}},
+				&Decl{Kind: "service", Name: fmt.Sprintf("ZzStaleService%d", i), Methods: []Method{{Name: "stalePing"}, {Name: "staleEcho", Ret: &Type{Kind: "base", Name: "i64"}}}},
+				&Decl{Kind: "scope", Name: fmt.Sprintf("ZzStaleScope%d", i), Prefix: []PrefixTok{{Text: "stale"}}, Ops: []Op{{Name: "StaleOp", Type: &Type{Kind: "base", Name: "string"}}}})
+		}
+		srcBig := filepath.Join(dir, "big", "src")
+		rootBig, _, _, err := writeProgram(big, c.Lex, srcBig)
+		if err != nil {
+			return ev.Failf("harness:write", "%v", err)
+		}
+		out := filepath.Join(dir, "reused-out")
+		if err, p := compileInProcess(rootBig, c.Target, out, c.Delim, true); err == nil && p == "" {
+			if f := inproc("-out directory already holding a larger revision's output", root, out); f != nil {
+				return f
+			}
+			last := &runs[len(runs)-1]
+			for k := range last.dig {
+				if _, ok := runs[0].dig[k]; !ok {
+					delete(last.dig, k) // left over from the larger revision
+				}
+			}
+		}
+	}
 	for i := 1; i < len(runs); i++ {
 		if d := diffDigests(runs[0].dig, runs[i].dig, runs[0].out, runs[i].out); d != "" {
+			if strings.HasPrefix(c.Target, "java") && strings.Contains(d, "date = \"") {
+				// the dated @Generated annotation (the stated exception): two runs on either side of midnight
+				ev.Count("c19.determinism", "excluded:dated-annotation-across-midnight", 1)
+				return nil
+			}
 			sig := "nondeterministic-output"
 			if i >= 3 {
 				sig = "location-dependent-output"
